@@ -5,6 +5,7 @@ import (
 	"go/ast"
 	"go/token"
 	"go/types"
+	"sort"
 	"strings"
 
 	"golang.org/x/tools/go/ssa"
@@ -228,6 +229,8 @@ func rulesScanErr(c *Ctx, r *Report, pkgs []string) {
 		})
 	}
 	r.floor("SC1", n, 1, "Scan call sites in fastq (4 today; one if wrapped in a helper)")
+	rulesScannerOwners(c, r)
+	rulesPassThroughErrors(c, r) // shared with C11: an error item of the inner iterator (a stream failure reported by ReaderHeader) is forwarded by Reader/File/FileHeader
 }
 
 // rulesStreamErrorLast: YD2 for fasta/fastq/bed/newick, YD3 for sam (stream-error provenance).
@@ -408,4 +411,45 @@ func withReachedDeps(c *Ctx, funcs []*ssa.Function) []*ssa.Function {
 		})
 	}
 	return out
+}
+
+// rulesScannerOwners (SC-WHO): a bufio.Scanner hands out the unfinished last line of a failing stream as a token
+// before it reports the failure. Only decoders that cannot turn that token into a delivered record may read
+// through one: fastq (a record needs four lines and equal lengths — F4L/REJECT) and smtext (one result, returned
+// only after Err() — SC1 under C20). A decoder that delivers one record per line (bed, sam) or per token would
+// deliver a record built from the cut line.
+func rulesScannerOwners(c *Ctx, r *Report) {
+	allowed := map[string]string{
+		modPath + "/formats/fastq":  "a record needs four complete lines of matching lengths (F4L, REJECT)",
+		modPath + "/formats/smtext": "the one result is returned only after Scanner.Err() (SC1 under C20)",
+	}
+	var bad []string
+	n := 0
+	for _, f := range formatFuncs(c) {
+		instrs(f, func(in ssa.Instruction) {
+			cl, ok := in.(*ssa.Call)
+			if !ok || !fnIs(cl.Call.StaticCallee(), "bufio", "NewScanner") {
+				return
+			}
+			n++
+			if _, ok := allowed[funcPkgPath(f)]; !ok {
+				bad = append(bad, fname(f)+" at "+c.pos(cl.Pos()))
+			}
+		})
+	}
+	sort.Strings(bad)
+	r.check(len(bad) == 0, "SC-WHO", "formats/*", "who reads through a Scanner", "",
+		fmt.Sprintf("bufio.NewScanner is called only in fastq and smtext (%d sites), whose decoders cannot deliver a record built from the unfinished line a Scanner hands out when the stream fails", n),
+		fmt.Sprintf("a line-per-record decoder reads through bufio.Scanner (%v): when the stream fails inside a line, the Scanner first hands out the cut line as a token, and a record built from it is delivered before the error", bad))
+	withControl(r, "SC-WHO scanner in a line decoder", func(cc *Ctx, fs []*ssa.Function) int {
+		hits := 0
+		for _, f := range fs {
+			instrs(f, func(in ssa.Instruction) {
+				if cl, ok := in.(*ssa.Call); ok && fnIs(cl.Call.StaticCallee(), "bufio", "NewScanner") {
+					hits++
+				}
+			})
+		}
+		return hits
+	})
 }
